@@ -419,6 +419,9 @@ func ruleBitList(c *Ctx) {
 					c.Check(R3, fmt.Sprintf("utils.(*BitList).GetBytes/len-edge%d", ei), phi.Pos(), false, "count/8 or count/8+1", v.String())
 				}
 			}
+		} else if cases := n.valueCases(fn, nil, mk.Len, 0); len(cases) > 1 {
+			// the length computed by a helper with the same two alternatives
+			checkCases(c, R3, "utils.(*BitList).GetBytes/len", mk.Pos(), cases, []edgeSpec{{"bl.count/8", "bl.count % 8 == 0"}, {"bl.count/8 + 1", "bl.count % 8 != 0"}})
 		} else {
 			// single formula form, e.g. (count+7)/8
 			c.expectPoly(R3, "utils.(*BitList).GetBytes/len", mk.Pos(), n, mk.Len, "(bl.count + 7)/8")
@@ -437,6 +440,22 @@ func ruleBitList(c *Ctx) {
 				if idx, phi, init, ok := loopIndex(h); ok {
 					n.Bind[idx] = "i"
 					c.Check(R3, "utils.(*BitList).GetBytes/loop-init", phi.Pos(), init == 0, "0", fmt.Sprint(init))
+					// every byte of the result is filled: the loop runs to the length the slice was made with
+					bound := loopBoundValue(h, idx)
+					if rot, isRot := rotatedLoop(h); isRot {
+						bound = loopBoundValue(rot.latch, rot.next)
+					}
+					okB := bound != nil && (bound == mk.Len || pEqual(n.Norm(bound), n.Norm(mk.Len)))
+					if lc, isCall := bound.(*ssa.Call); isCall && !okB {
+						if bi, isB := lc.Common().Value.(*ssa.Builtin); isB && bi.Name() == "len" && lc.Common().Args[0] == ssa.Value(mk) {
+							okB = true
+						}
+					}
+					found := "no bound"
+					if bound != nil {
+						found = n.Norm(bound).String()
+					}
+					c.Check(R3, "utils.(*BitList).GetBytes/loop-bound", phi.Pos(), okB && loopExitsOnlyAtHeader(h), "i runs to the length of the result", found)
 				}
 			}
 			c.expectPoly(R3, "utils.(*BitList).GetBytes/elem-index", st.Pos(), n, ia.Index, "i")
@@ -578,12 +597,19 @@ func ruleBitList(c *Ctx) {
 				if bo, ok := iff.Cond.(*ssa.BinOp); ok && bo.Op == token.LSS && bo.X == idx {
 					bound = bo.Y
 				}
+				cases := []valCase{}
 				if bound == nil {
-					c.Undecided(R3, "utils.(*BitList).IterateBytes/while", hdr.Instrs[0].Pos(), "loop test is not i < byte count")
-					continue
+					// the test written on the bit count: 8*i < count (as many bytes as groups of 8 bits started)
+					if len(hdr.Succs) != 2 {
+						c.Undecided(R3, "utils.(*BitList).IterateBytes/while", hdr.Instrs[0].Pos(), "loop test is not i < byte count")
+						continue
+					}
+					c.expectCond(R3, "utils.(*BitList).IterateBytes/while", iff.Pos(), n.EdgeCond(hdr, hdr.Succs[loopBodySucc(hdr)]), "8*i < bl.count")
+				} else {
+					cases = n.valueCases(cl, nil, bound, 0)
 				}
-				cases := n.valueCases(cl, nil, bound, 0)
-				if len(cases) == 1 {
+				if bound == nil {
+				} else if len(cases) == 1 {
 					c.Check(R3, "utils.(*BitList).IterateBytes/while", bound.Pos(), pEqual(cases[0].val, MustRef("(bl.count + 7)/8")), "i < (count+7)/8", cases[0].val.String())
 				} else {
 					checkCases(c, R3, "utils.(*BitList).IterateBytes/while", bound.Pos(), cases, []edgeSpec{{"bl.count/8", "bl.count % 8 == 0"}, {"bl.count/8 + 1", "bl.count % 8 != 0"}})
@@ -918,6 +944,20 @@ func ruleGFArith(c *Ctx) {
 				okNext, got := false, n.Norm(appended).String()
 				var ng *ssa.Call
 				ctxBefore := n.Ctx
+				// the whole step may be computed by a helper (next = helper(last, d))
+				for d := 0; d < 2; d++ {
+					hc, ok := appended.(*ssa.Call)
+					if !ok || calleeOf(hc) == nil || c.P.FuncName(calleeOf(hc)) == "utils.(*GFPoly).Multiply" {
+						break
+					}
+					g := calleeOf(hc)
+					if !isRepoFunc(g) || g.Blocks == nil || len(returnsOf(g)) != 1 || len(returnsOf(g)[0].Results) != 1 {
+						break
+					}
+					n.Ctx = append(append([]ssa.CallInstruction{}, n.Ctx...), hc)
+					appended = returnsOf(g)[0].Results[0]
+					c.Fn(c.P.FuncName(g))
+				}
 				if mul, ok := appended.(*ssa.Call); ok && len(mul.Common().Args) == 2 && calleeOf(mul) != nil && c.P.FuncName(calleeOf(mul)) == "utils.(*GFPoly).Multiply" && n.Norm(mul.Common().Args[0]).String() == "TOP" {
 					fv := mul.Common().Args[1]
 					for d := 0; d < 3; d++ {
